@@ -18,6 +18,12 @@ RULE = ('arrival patterns on plain and TLS-model transports: bursts of 1 / 2 '
         'last byte became available.  Non-trivial = >= 1 burst after Ready; '
         'distinct = distinct (transport, burst shapes, record sizes, short-'
         'read size) signatures.  TLS is a record/pending model, not OpenSSL')
+RULE += (' '
+         'Also: bursts of exactly N x 65536 bytes, the last byte of a burst '
+         'in a segment of its own (SO_RCVLOWAT is modelled), bursts ending '
+         'in payload-less frames, a control frame inside an unfinished '
+         'message, read-ahead TLS, ws:// through an https:// proxy, '
+         'ThreadSim family.')
 SHRINK_LISTS = [('bursts',)]
 EXPECTED_PROBES = ['tls', 'plain', 'burst_over_64k', 'many_frames_one_read',
                    'frame_spans_records', 'tls_pending_nonzero',
